@@ -97,17 +97,36 @@ theorem mem_collect : ∀ (ops : Ops) (c : Constr), c ∈ ops.conList → c.trut
   | .field _ _ r, c, h, ht => by simpa [collect] using mem_collect r c (by simpa [Ops.conList] using h) ht
   | .entry _ _ _ r, c, h, ht => by simpa [collect] using mem_collect r c (by simpa [Ops.conList] using h) ht
 
+theorem imposedBy_self (c : Constr) : imposedBy c c = true := by
+  obtain ⟨k, ops⟩ := c
+  simp [imposedBy, pyEq_refl]
+
+/-- an intersection imposes each of its operands -/
+theorem imposedByOps_of_mem : ∀ (ops : Ops) (c : Constr), c ∈ ops.conList → imposedByOps c ops = true
+  | .nil, c, h => by simp [Ops.conList] at h
+  | .con d r, c, h => by
+    simp only [Ops.conList, List.mem_cons] at h
+    simp only [imposedByOps, Bool.or_eq_true]
+    rcases h with h | h
+    · subst h; exact Or.inl (imposedBy_self _)
+    · exact Or.inr (imposedByOps_of_mem r c h)
+  | .raw _ r, c, h => by simpa [imposedByOps] using imposedByOps_of_mem r c (by simpa [Ops.conList] using h)
+  | .field _ _ r, c, h => by simpa [imposedByOps] using imposedByOps_of_mem r c (by simpa [Ops.conList] using h)
+  | .entry _ _ _ r, c, h => by simpa [imposedByOps] using imposedByOps_of_mem r c (by simpa [Ops.conList] using h)
+
+theorem imposedBy_of_mem (cops : Ops) (c : Constr) (h : c ∈ cops.conList) :
+    imposedBy c (.mk .intersection cops) = true := by
+  simp [imposedBy, imposedByOps_of_mem cops c h]
+
 theorem imposedAll_of : ∀ (ops : Ops) (sh : Shape) (other : Constr),
     wfOps sh ops = true → sh.raw = false → sh.field = false → sh.entry = false →
-    (∀ c ∈ ops.conList, c.truthy = true → c ∈ valueMap other) → imposedAll ops other = true
+    (∀ c ∈ ops.conList, imposedBy c other = true) → imposedAll ops other = true
   | .nil, _, _, _, _, _, _, _ => by simp [imposedAll]
   | .con c r, sh, other, hw, hr, hf, he, h => by
     simp only [wfOps, Bool.and_eq_true] at hw
     simp only [imposedAll, Bool.and_eq_true, Bool.or_eq_true]
-    refine ⟨?_, imposedAll_of r sh other hw.2 hr hf he (fun d hd => h d (by simp [Ops.conList, hd]))⟩
-    by_cases ht : c.truthy = true
-    · right; simpa using h c (by simp [Ops.conList]) ht
-    · left; left; simpa using ht
+    exact ⟨Or.inr (h c (by simp [Ops.conList])),
+      imposedAll_of r sh other hw.2 hr hf he (fun d hd => h d (by simp [Ops.conList, hd]))⟩
   | .raw _ _, sh, _, hw, hr, _, _, _ => by simp [wfOps, hr] at hw
   | .field _ _ _, sh, _, hw, _, hf, _, _ => by simp [wfOps, hf] at hw
   | .entry _ _ _ _, sh, _, hw, _, _, he, _ => by simp [wfOps, he] at hw
@@ -167,8 +186,8 @@ theorem super_of_imposes (p child : Constr) (hw : p.wf = true) (h : Imposes chil
     right
     simp only [Constr.wf, Bool.and_eq_true] at hw
     refine imposedAll_of ops _ _ hw.1 rfl rfl rfl ?_
-    intro c hc ht
-    simpa [valueMap] using mem_collect cops c (hp c hc) ht
+    intro c hc
+    exact imposedBy_of_mem cops c (hp c hc)
   | singleValue => simpa [isSuperTypeOf] using nonInter hp
   | containedSubtype => simpa [isSuperTypeOf] using nonInter hp
   | valueRange => simpa [isSuperTypeOf] using nonInter hp
